@@ -103,11 +103,16 @@ package config
 //@   ensures[new-version-installed] result == nil ==> txnPoliciesAccessor.currentVersion == old(txnPoliciesAccessor.currentVersion) + 1 && txnPoliciesAccessor.policiesVersions[txnPoliciesAccessor.currentVersion] == newPoliciesData
 //@   ensures[stored-versions-kept] forall(v, PoliciesVersion, old(in(v, txnPoliciesAccessor.policiesVersions)) ==> in(v, txnPoliciesAccessor.policiesVersions) && txnPoliciesAccessor.policiesVersions[v] == old(txnPoliciesAccessor.policiesVersions[v]))
 
+// which accessor the latest fail-safe revert worked on (the fail-safe must revert THE accessor the handlers read, not a copy:
+// a copy shares the version map but not the current-version counter)
+//@ ghost var gRevertedOn *TxnPoliciesAccessor
 //@ func (*TxnPoliciesAccessor).RevertToDiagnosisFree
 //@   prop C11
 //@   mode seq
+//@   on entry do gRevertedOn = txnPoliciesAccessor
+//@   ensures[on-this-accessor] gRevertedOn == txnPoliciesAccessor
 //@   requires accOK(txnPoliciesAccessor) && in(txnPoliciesAccessor.currentVersion, txnPoliciesAccessor.policiesVersions) && txnPoliciesAccessor.policiesVersions[txnPoliciesAccessor.currentVersion] != nil
-//@   modifies txnPoliciesAccessor.currentVersion, mapof(txnPoliciesAccessor.policiesVersions), txnPoliciesAccessor.policiesVersionsVacuum.entries, txnPoliciesAccessor.policiesVersionsVacuum.active, now
+//@   modifies gRevertedOn, txnPoliciesAccessor.currentVersion, mapof(txnPoliciesAccessor.policiesVersions), txnPoliciesAccessor.policiesVersionsVacuum.entries, txnPoliciesAccessor.policiesVersionsVacuum.active, now
 //@   allocates HAProxyEndpointsRequest, PoliciesData, PoliciesConfig
 //@   requires[no-future-versions] forall(v, PoliciesVersion, v > txnPoliciesAccessor.currentVersion ==> !in(v, txnPoliciesAccessor.policiesVersions))
 //@   ensures[no-future-versions] forall(v, PoliciesVersion, v > txnPoliciesAccessor.currentVersion ==> !in(v, txnPoliciesAccessor.policiesVersions))
@@ -116,8 +121,10 @@ package config
 //@ func (*TxnPoliciesAccessor).RevertToLastLoaded
 //@   prop C11
 //@   mode seq
+//@   on entry do gRevertedOn = txnPoliciesAccessor
+//@   ensures[on-this-accessor] gRevertedOn == txnPoliciesAccessor
 //@   requires accOK(txnPoliciesAccessor) && in(txnPoliciesAccessor.currentVersion, txnPoliciesAccessor.policiesVersions) && txnPoliciesAccessor.policiesVersions[txnPoliciesAccessor.currentVersion] != nil
-//@   modifies txnPoliciesAccessor.currentVersion, mapof(txnPoliciesAccessor.policiesVersions), txnPoliciesAccessor.policiesVersionsVacuum.entries, txnPoliciesAccessor.policiesVersionsVacuum.active, now
+//@   modifies gRevertedOn, txnPoliciesAccessor.currentVersion, mapof(txnPoliciesAccessor.policiesVersions), txnPoliciesAccessor.policiesVersionsVacuum.entries, txnPoliciesAccessor.policiesVersionsVacuum.active, now
 //@   allocates HAProxyEndpointsRequest, PoliciesData, PoliciesConfig
 //@   requires[no-future-versions] forall(v, PoliciesVersion, v > txnPoliciesAccessor.currentVersion ==> !in(v, txnPoliciesAccessor.policiesVersions))
 //@   ensures[no-future-versions] forall(v, PoliciesVersion, v > txnPoliciesAccessor.currentVersion ==> !in(v, txnPoliciesAccessor.policiesVersions))
